@@ -66,15 +66,21 @@ func showLicense(l license.License, err error) string {
 }
 
 // licenseRoundTrip generates a license of the given version and checks the property directly.
-func licenseRoundTrip(version string) string {
+func licenseRoundTrip(version string, user, sign, index uint32) string {
 	var l license.License
 	switch version {
 	case "1":
-		l = license.NewV1()
+		v := license.NewV1()
+		v.User, v.Sign = user, sign
+		l = v
 	case "2":
-		l = license.NewV2()
+		v := license.NewV2()
+		v.User, v.Sign, v.Index = user, sign, index
+		l = v
 	default:
-		l = license.NewV3()
+		v := license.NewV3()
+		v.User, v.Sign, v.Index = user, sign, index
+		l = v
 	}
 	back, err := license.Parse(l.String())
 	if err != nil {
@@ -137,7 +143,10 @@ func step(w []string, _ string) string {
 			str := l.String()
 			return vlib.Hex([]byte(str)) + " " + showLicense(license.Parse(str))
 		case "licrt":
-			return licenseRoundTrip(w[1])
+			u, _ := strconv.ParseUint(w[2], 10, 32)
+			sg, _ := strconv.ParseUint(w[3], 10, 32)
+			ix, _ := strconv.ParseUint(w[4], 10, 32)
+			return licenseRoundTrip(w[1], uint32(u), uint32(sg), uint32(ix))
 		case "licmut":
 			license.Parse(string(vlib.UnHex(w[1])))
 			return "nopanic"
